@@ -9,7 +9,7 @@ EVIDENCE = dict(
     outside="shapes beyond rank 4 / dim 3; CUDA/MPS kernels; scales whose grid is not representable in the working dtype (no implementation can return those grid points); bfloat16 re-quantization (excluded by the property); float32 bit-exact (BIT) re-quantization - float32 is carried by RERR",
     assumptions=[
         "RERR: standard model of IEEE arithmetic (|e|<=2^-p relative, |d|<=2^(emin-p) absolute per operation); unsat is a proof for all executions without overflow, overflow is covered by the BIT saturation/finiteness clauses",
-        "the PyTorch float->float8 cast returns a nearest grid point of its input (validated on every executed cast under the seed and exhaustively against torch for all float16/bfloat16 inputs by tools/conformance.py in the thorough tier)",
+        "the PyTorch float->float8 cast returns a nearest grid point of its input (validated on every executed cast under the seed and exhaustively against torch for all 2^16 float16 and bfloat16 inputs by symt/conformance.py in every run)",
         "compositional step for tensors: the per-element term equals the scalar kernel's term (term identity after substitution), so the scalar clauses transfer to every element",
     ],
 )
@@ -41,6 +41,7 @@ def cases(tier, seed):
     for dt in ("float16", "float32"):
         for q in QT:
             out.append(dict(kind="requant", dtype=dt, qtype=q, tier=tier))
+    out.append(dict(kind="conformance"))
     shapes = _shapes(tier)
     n = 4 if tier == "quick" else 9
     for dt in ("float16", "bfloat16", "float32") if tier == "thorough" else ("float16", "float32"):
@@ -173,6 +174,16 @@ def run_case(case, res):
     from optimum.quanto import quantize_activation
     from optimum.quanto.tensor.quantizers import SymmetricQuantizer
 
+    if case["kind"] == "conformance":
+        from symt import conformance
+
+        n, bad = conformance.evaluator_sweep(True)
+        res.side_ok("evaluator-conforms-to-torch-kernels", not bad, f"{n} values: float8 casts for all 2^16 float16 and bfloat16 inputs, float->int casts, + - * / round on boundary values; mismatches {bad[:3]}")
+        n2, bad2 = conformance.bit_sweep()
+        res.side_ok("bit-float8-encoding-conforms-to-evaluator", not bad2, f"{n2} boundary values; mismatches {bad2[:3]}")
+        if bad or bad2:
+            raise api.ModelMismatch(f"conformance sweep failed: {bad[:3]} {bad2[:3]}")
+        return
     dt = api.DT[case["dtype"]]
     qt = _qt(case["qtype"])
     f = tm.FMT[dt]
